@@ -86,7 +86,8 @@ def run(module, cfg, *, workdir, workers=None, env=None, timeout=600, simulate=N
         if not simulate:
             raise MachineryError(f"TLC timed out after {timeout}s: {res.cmd}\n{out[-2000:]}")
     finally:
-        subprocess.run(["pkill", "-f", metadir], check=False)
+        # (subprocess.run already killed the JVM on timeout; never pkill by path substring: a snapshot of /verif
+        # running the same check elsewhere has the same path suffix)
         shutil.rmtree(metadir, ignore_errors=True)
     res.wall = time.time() - t0
     out = res.out
